@@ -96,6 +96,12 @@ CHECKS = [
               "siblings/look-alikes, imports executed lazily inside function bodies after an uninstall, and the pytest option are interleaved; after each "
               "operation every loaded forest module must have exactly the instrumentation the model predicts.",
          note="9-module forest in a temp dir, bytecode writing off; sys.modules purged between cases only; IPython magic covered through the shared transformer in C10"),
+    dict(property_id="C18", level="exploration", design_ref="DESIGN.md §5 C18",
+         technique="Hypothesis-generated histories of interpreter runs over one cache directory with bytecode writing on (harness owns sources, mtimes and hook configuration per run); per run and module the observed instrumentation/checker/source version is compared with the model",
+         text="Runs choose hooked subsets, one or two hooks with different checkers, import orders incl. nested imports, and source edits; quick simulates runs "
+              "in one process (plus a few real-subprocess histories), thorough executes every run in a fresh interpreter. A stale .pyc shows up as the wrong "
+              "checker, missing/extra instrumentation or an old source version.",
+         note="4-module forest; CPython 3.12 pyc validation; in-process simulation clears Typechecker.lookup and sys.modules to mimic a new interpreter"),
 ]
 _pending = "check not built yet in this round (will be claimed once its machinery is committed)"
 NOT_APPLICABLE = [dict(property_id=f"C{i:02d}", reason=_pending) for i in range(1, 21)
